@@ -13,6 +13,7 @@ import EvalexprVerif.Proofs.ParseSeq
 import EvalexprVerif.Proofs.EvalOrder
 import EvalexprVerif.Proofs.AgreeOperator
 import EvalexprVerif.Proofs.LexRoundtrip
+import EvalexprVerif.Proofs.AgreeFnTokensToTree
 
 namespace Evalexpr.Spec.C05
 open Evalexpr Evalexpr.Spec
@@ -20,6 +21,13 @@ open Evalexpr Evalexpr.Spec
 /-- **C05 (tree)** -/
 theorem C05_tree (l : Level) (h : levelWf l = true) :
     tokensToOperatorTree (renderLevel l) = .ok (levelTree l) := Evalexpr.Spec.C05_tree l h
+
+/-- **C05 about the code as translated on this run** (`Gen.tokens_to_operator_tree`: the rendered body of
+`tokens_to_operator_tree` with its sequence branches and the rendered `collapse_root_stack_to` / `collapse_all_sequences`):
+on the tokens of every well-formed level it terminates and returns the reference tree of the level -/
+theorem C05_tree_generated (l : Level) (h : levelWf l = true) :
+    Gen.tokens_to_operator_tree (renderLevel l) = some (.ok (levelTree l)) := by
+  rw [AgreeFn.fn_tokens_to_operator_tree_agree, C05_tree l h]
 
 /-- … in every literal spelling with the weakest separation the lexer needs (extended round trip) -/
 theorem C05_string_ext (l : Level) (h : levelWf l = true) (ps : List (Gap × PTok)) (g : Gap)
